@@ -4,7 +4,8 @@ set -u
 patch="$1"; id="$2"; tier="${3:-quick}"; shift 3 2>/dev/null || shift $#
 cd /verif
 if ! git -C /repo diff --quiet; then echo "repo has uncommitted changes"; exit 2; fi
-git -C /repo apply "$patch" || { echo "patch does not apply"; exit 2; }
+patch="$(realpath "$patch")"
+git -C /repo apply "$patch" 2>/dev/null || git -C /repo apply -C1 "$patch" || { echo "patch does not apply"; exit 2; }
 ./check "$id" "$tier" "$@"; rc=$?
 git -C /repo checkout -- . 
 echo "exit=$rc"
